@@ -4844,8 +4844,14 @@ class Pack:
         base_type = type
         base_obj = obj
         delta_stack = []
+        # Offsets already on the chain. An OFS_DELTA always points backwards,
+        # but REF_DELTAs resolved through the index can name each other, and
+        # a crafted pack would otherwise make this loop spin forever.
+        seen_offsets: set[int] = set()
         while base_type in DELTA_TYPES:
             prev_offset = base_offset
+            if prev_offset is not None:
+                seen_offsets.add(prev_offset)
             if get_ref is None:
                 get_ref = self.get_ref
             assert isinstance(base_obj, tuple), (
@@ -4871,7 +4877,8 @@ class Pack:
                 assert isinstance(base_type, int)
                 # base_offset_temp can be None for thin packs (external references)
                 base_offset = base_offset_temp
-                if base_offset == prev_offset:  # object is based on itself
+                if base_offset is not None and base_offset in seen_offsets:
+                    # object is based on itself, directly or through a cycle
                     raise UnresolvedDeltas([basename])
             else:
                 raise AssertionError(f"Unexpected delta type: {base_type}")
